@@ -13,6 +13,10 @@ Decides the "leave everything unchanged" clause structurally:
  R5 the gate predicates themselves: check_trace_id == (id == cfg.trace_identifier ∨ id == 0);
     in_round == (seq ≥ round_sequence ∧ seq − round_sequence < BUFFER_SIZE).
  R6 a never-sent / stale sequence inside the window must not crash: complete_probe has no panicking trace.
+ R8 trace identifiers of one process (trippy-tui start_tracers): the identifier handed to the i-th tracer — the term that reaches
+    Builder::trace_identifier, with private helpers inlined — is extracted and evaluated as arithmetic (tsa/termeval-style, no trippy code is run) over the
+    process-id domain the caller establishes (`process::id() % M`): it is never 0 (0 means "no identifier" and passes every tracer's check_trace_id),
+    distinct for distinct i, and no overflow assertion on the way can fail. Bounds: every pid of the domain × i < 16; the four boundary pids × i < 4096.
 C07.R5 (imported): advance_round restarts the numbering only at max_sequence(), whose two regimes leave a whole buffer of numbers per round.
 Not decided: arrival-order semantics over many rounds (the two-round separation itself is C07.R7, with its known findings);
 multi-tracer interference beyond the trace-id / validate gates.
@@ -126,6 +130,7 @@ def run(chk, tier):
     chk.rule('R4', 'complete_probe: non-Awaited slot ⇒ no write; Awaited ⇒ exactly the specified updates', floor=10)
     chk.rule('R6', 'complete_probe never panics, whatever slot the in-window sequence names', floor=1)
     transitions(chk, prog)
+    trace_ids(chk)
 
     # ---- R7: stale slots ---------------------------------------------------------------------------------
     chk.rule('R7', 'a sequence not sent in the current round can never name an Awaited slot '
@@ -341,4 +346,115 @@ def _human(fld):
         'target_ttl': 'target: None→Some(ttl), Some(t)→Some(min(t, ttl)); non-target: Some(t) with ttl ≥ t → None, otherwise unchanged',
     }[fld]
 
+
+def trace_ids(chk):
+    """R8 — see module docstring."""
+    chk.rule('R8', 'tracers of one process get distinct non-zero trace identifiers, computed without overflow', floor=2)
+    prog = program(crates=('core', 'tui'))
+    fs = prog.find(r'trippy_tui::app::start_tracers$')
+    chk.fn_seen(fs['path'])
+    W = {'u8': 8, 'u16': 16, 'u32': 32, 'u64': 64, 'usize': 64}
+
+    def comp(v):
+        """extracted term -> python expression over pid, i (None: not arithmetic over these)"""
+        if not isinstance(v, tuple):
+            return None
+        if v[0] == 'c' and isinstance(v[1], int):
+            return str(int(v[1]))
+        if v[0] == 'sym':
+            return {'i': 'i'}.get(v[1], 'pid' if re.fullmatch(r'env\.\d+|pid', v[1]) else None)
+        if v[0] != 'term':
+            return None
+        op, a = v[1], v[2]
+        if op == 'unwrap_or' and len(a) == 2 and isinstance(a[0], tuple) and a[0][0] == 'term' and re.search(r'try_from$', a[0][1]):
+            inner, dflt = comp(a[0][2][0]), comp(a[1])       # u16::try_from(x).unwrap_or(d)
+            return None if inner is None or dflt is None else '(%s if 0 <= %s <= 65535 else %s)' % (inner, inner, dflt)
+        xs = [comp(x) for x in a]
+        if any(x is None for x in xs):
+            return None
+        if op in ('Add', 'Sub', 'Mul'):
+            return '(%s %s %s)' % (xs[0], {'Add': '+', 'Sub': '-', 'Mul': '*'}[op], xs[1])
+        if op == 'Rem':
+            return '(%s %% %s)' % (xs[0], xs[1])
+        if op == 'Div':
+            return '(%s // %s)' % (xs[0], xs[1])
+        m = re.fullmatch(r'as_(u8|u16|u32|u64|usize)', op)
+        if m:
+            return '(%s & %d)' % (xs[0], (1 << W[m.group(1)]) - 1)
+        if op in ('wrapping_add',):
+            return '((%s + %s) & 65535)' % (xs[0], xs[1])
+        if re.fullmatch(r'call:(num|convert)::from', op) and len(xs) == 1:
+            return xs[0]
+        return None
+
+    cls = [c for c in prog.fns.values() if c['kind'] == 'Closure' and c.get('parent') == fs['path']]
+    callers = [c for c in [fs] + cls if any(b['term']['k'] == 'call' and re.search(r'app::start_tracer$', b['term'].get('resolved') or b['term']['callee'] or '') for b in c['blocks'])]
+    if len(callers) != 1:
+        chk.fail('R8', 'anchor', fn_loc(fs), 'expected one site in start_tracers that starts a tracer, found %d' % len(callers), key='R8|anchor')
+        return
+    fn = callers[0]
+    eng = Engine(prog, inline_depth=2, opaque=[r'app::start_tracer$'])
+    st = St()
+    if fn['kind'] == 'Closure':
+        outs = eng.run(fn, [eng.sym_ref(st, 'env'), ('tuple', [('sym', 'i'), eng.sym_ref(st, 'target')])], st)
+    else:
+        chk.fail('R8', 'anchor', fn_loc(fs), 'start_tracers no longer maps a closure over the enumerated targets: shape not recognised', key='R8|anchor')
+        return
+    # the pid domain established by the caller
+    ft = prog.find(r'trippy_tui::trippy$')
+    e0 = Engine(prog, inline_depth=0)
+    st0 = St()
+    pid_terms = {vshow(c[7][1]) for o in e0.run(ft, [], st0) for c in user_calls(o, r'app::run_trippy$')}
+    pid_max = 65535
+    if len(pid_terms) == 1:
+        m = re.fullmatch(r'field:0\(call:num::try_from\(Rem\(call:process::id\(\), (\d+)\)\)\)', next(iter(pid_terms)))
+        if m:
+            pid_max = min(65535, int(m.group(1)) - 1)
+    chk.ok('R8', 'pid-domain', 'pid ∈ [0, %d] (%s)' % (pid_max, sorted(pid_terms)), nontrivial=False)
+    n_sites = 0
+    for o in outs:
+        if o.kind != 'return':
+            continue
+        for c in user_calls(o, r'app::start_tracer$'):
+            n_sites += 1
+            term = c[7][3]
+            expr = comp(term)
+            asserts = [(e[1], e[2], e[4] if len(e) > 4 else None) for e in o.st.events if e[0] == 'assert' and e[1].startswith('Overflow')]
+            aexprs = []
+            for kind, ops, opty in asserts:
+                xs = [comp(x) for x in ops]
+                if None in xs or opty not in W:
+                    expr = None
+                    break
+                opc = {'Overflow:Add': '+', 'Overflow:Sub': '-', 'Overflow:Mul': '*'}.get(kind)
+                if opc is None:
+                    expr = None
+                    break
+                aexprs.append(('0 <= (%s %s %s) <= %d' % (xs[0], opc, xs[1], (1 << W[opty]) - 1), '%s(%s, %s) on %s' % (kind, vshow(ops[0])[:40], vshow(ops[1])[:40], opty)))
+            if expr is None:
+                chk.fail('R8', 'id-term', fn_loc(fn), 'the trace identifier of the i-th tracer is %s: not an arithmetic term over (pid, i) this rule can evaluate' % vshow(term)[:140], key='R8|id-term')
+                continue
+            f_id = eval('lambda pid, i: ' + expr)
+            f_as = [(eval('lambda pid, i: ' + ae), d) for ae, d in aexprs]
+            bad = {}
+            edge = sorted({0, 1, max(0, pid_max - 1), pid_max})
+            for pids, imax in ((range(0, pid_max + 1), 16), (edge, 4096)):
+                for pid in pids:
+                    seen = set()
+                    for i in range(imax):
+                        for fa, d in f_as:
+                            if not fa(pid, i):
+                                bad.setdefault('overflow', 'pid %d, tracer %d: %s overflows (panic in a debug build, a wrapped identifier otherwise)' % (pid, i, d))
+                        v = f_id(pid, i)
+                        if v == 0:
+                            bad.setdefault('zero', 'pid %d, tracer %d gets trace identifier 0 — "no identifier", which every other tracer\'s check_trace_id accepts, so its responses are taken by the other tracers of the process' % (pid, i))
+                        if v in seen:
+                            bad.setdefault('collision', 'pid %d: tracer %d gets the identifier %d of an earlier tracer' % (pid, i, v))
+                        seen.add(v)
+            for kind, msg in sorted(bad.items()):
+                chk.fail('R8', 'ids:' + kind, fn_loc(fn), 'start_tracers assigns %s as the trace identifier of tracer i: %s' % (vshow(term)[:90], msg), key='R8|ids|' + kind)
+            if not bad:
+                chk.ok('R8', 'ids', '%s: non-zero, injective in i, %d overflow assertions hold (pid ∈ [0, %d] × i < 16; boundary pids × i < 4096)' % (vshow(term)[:100], len(f_as), pid_max))
+    if not n_sites:
+        chk.fail('R8', 'anchor', fn_loc(fn), 'no tracer is started on any trace of the start_tracers closure', key='R8|anchor')
 
